@@ -121,3 +121,53 @@ def run(ctx):
                + ('AFTER' if late else 'before') + ' the manifest commit', [site(bd, c.bb) for c in applies],
                what='create_table_inner logs CreateTable before validating it: a duplicate name (two concurrent sessions) leaves '
                     'a record that replay rejects - the database cannot be reopened')
+
+    R5 = 'C03-R5'
+    ctx.rule(R5, 'nothing of a logged definition is dropped on the way to the manifest: for every struct reachable from '
+                 'ManifestOperation, the derived Serialize writes every field (no skipped field), and every enum variant is written')
+    closure, todo = set(), [MANOP]
+    while todo:
+        a = todo.pop()
+        if a in closure or a not in prog.adts:
+            continue
+        closure.add(a)
+        for v in prog.adts[a]['variants']:
+            for f in v['fields']:
+                for cand in re.findall(r'[A-Za-z_][A-Za-z0-9_:]*', f['ty']):
+                    if cand in prog.adts and cand not in closure:
+                        todo.append(cand)
+    ser = {}
+    for b in prog.bodies.values():
+        m = re.search(r'Serialize for ([A-Za-z0-9_:]+)>::serialize$', b.name)
+        if m:
+            ser[m.group(1)] = b
+    n5 = 0
+    for a in sorted(closure):
+        adt = prog.adts[a]
+        b = ser.get(a)
+        if b is None:
+            # types serialized by hand or through a foreign impl are not derived: report, do not judge
+            ctx.note(f'C03-R5: {a} has no derived Serialize in this crate (hand-written or foreign)')
+            continue
+        n5 += 1
+        ctx.functions_analysed.add(b.name)
+        names = set()
+        for c in b.calls:
+            if re.search(r'serialize_field$|serialize_(unit|newtype|tuple|struct)_variant$|SerializeStructVariant::serialize_field$', c.fn or ''):
+                for arg in c.args:
+                    if arg['k'] == 'const':
+                        m2 = re.match(r'^(?:const )?"(.*)"$', arg.get('v', ''))
+                        if m2:
+                            names.add(m2.group(1))
+        if adt['kind'] == 'Struct':
+            fields = [f['name'] for f in adt['variants'][0]['fields']]
+            if all(f.isdigit() for f in fields):
+                continue   # tuple / newtype struct: serialized positionally
+            missing = [f for f in fields if f not in names]
+            ctx.ob(R5, f'{a}·fields', not missing, f'{a}: fields {fields}; serialized {sorted(names & set(fields))}; skipped: {missing}', [b.loc])
+        elif adt['kind'] == 'Enum':
+            variants = [v['name'] for v in adt['variants']]
+            missing = [v for v in variants if v not in names]
+            ctx.ob(R5, f'{a}·variants', not missing, f'{a}: variants {len(variants)}; not serialized: {missing}', [b.loc])
+    ctx.floor(R5, n5, 8, 'types serialized into the manifest')
+
